@@ -24,7 +24,8 @@ from vlib import hx, hxl, cps
 ID = 'C13'
 COMPONENTS = ['import']
 THEOREMS = ['C13_search_order', 'C13_search_none', 'C13_importer_dir_first', 'C13_rightmost_J_wins',
-            'C13_absolute_bypass', 'C13_cache_by_canonical', 'C13_loaded_once', 'C13_evaluated_once', 'C13_thisfile_is_as_loaded',
+            'C13_absolute_bypass', 'C13_virtual_bases_are_search_paths', 'C13_absolute_bypass_virtual',
+            'C13_virtual_relative_needs_J', 'C13_once_virtual', 'C13_nonvacuous_virtual', 'C13_cache_by_canonical', 'C13_loaded_once', 'C13_evaluated_once', 'C13_thisfile_is_as_loaded',
             'C13_missing_is_import_error_at_site', 'C13_unreadable_is_import_error_at_site',
             'C13_importstr_is_lossy_decode', 'C13_lossy_of_valid_utf8', 'C13_nonvacuous_lossy', 'C13_importbin_exact', 'C13_resolution_deterministic',
             'C13_resolution_depends_only_on_existence', 'C13_nonvacuous', 'C13_nonvacuous_J_order',
@@ -33,6 +34,7 @@ ALLOWED_AXIOMS = set()
 TRANSLATORS = []
 
 VROOT = '/VROOT7'
+REPR = {'e': '<cmdline>', 'stdin': '<stdin>', 'ext': '<ext:v>', 'tla': '<tla:x>'}   # main.rs: display names of virtual sources
 FUEL = 48
 
 
@@ -108,6 +110,11 @@ def model_fields(case):
             tree.append('L:%s::%s' % (nm, cps(ent['to'])))
     tree.insert(0, 'D:%s:1:' % names_field(['VROOT7']))
     cwd = ['VROOT7'] + [x for x in case['cwd'].split('/') if x]
+    if case.get('virt'):
+        ve = case['virt']['prog']
+        return ['runv', '%d;%x' % (1 if case['priv'] else 0, FUEL), names_field(cwd), '|'.join(tree), '|'.join(progs),
+                names_field(case['J']), cps(REPR[case['virt']['mode']]), hxl(list(content_of(ve))),
+                '%s:%s:%s' % (cps(ve['tag']), ';'.join(expr_field(e) for e in ve['strict']), ';'.join(expr_field(e) for e in ve['items']))]
     return ['run', '%d;%x' % (1 if case['priv'] else 0, FUEL), names_field(cwd), '|'.join(tree), '|'.join(progs),
             names_field(case['J']), cps(case['main'])]
 
@@ -156,7 +163,21 @@ def run_cli(cli, root, case, unpriv_ok):
     argv = [cli]
     for j in case['J']:
         argv += ['-J', real(j)]
-    argv.append(real(case['main']))
+    stdin = None
+    if case.get('virt'):
+        text = content_of(case['virt']['prog']).replace(VROOT.encode(), root.encode())
+        mode = case['virt']['mode']
+        if mode == 'e':
+            argv += ['-e', text]
+        elif mode == 'stdin':
+            argv += ['-']
+            stdin = text
+        elif mode == 'ext':
+            argv += ['--ext-code', b'v=' + text, '-e', 'std.extVar("v")']
+        else:
+            argv += ['--tla-code', b'x=' + text, '-e', 'function(x) x']
+    else:
+        argv.append(real(case['main']))
     env = {'NO_COLOR': '1', 'PATH': '/usr/bin:/bin', 'LANG': 'C.UTF-8'}
     kw = {}
     if not case['priv']:
@@ -165,7 +186,7 @@ def run_cli(cli, root, case, unpriv_ok):
         kw = {'user': 'nobody', 'group': 'nogroup'}
     try:
         p = subprocess.run(argv, cwd=os.path.join(root, case['cwd']), stdout=subprocess.PIPE, stderr=subprocess.PIPE,
-                           env=env, timeout=60, **kw)
+                           env=env, timeout=60, input=stdin if stdin is not None else b'', **kw)
         return (p.returncode, p.stdout, p.stderr)
     except subprocess.TimeoutExpired:
         return ('timeout', b'', b'')
@@ -315,7 +336,8 @@ def py_resolve(root, cwd_abs, this_file, J, p):
     p = p.replace(VROOT, root)
     if p.startswith('/'):
         return p if os.path.exists(p) else None
-    cands = [rjoin(os.path.dirname(this_file), p)]
+    # a virtual source has no directory of its own
+    cands = [] if this_file in REPR.values() else [rjoin(os.path.dirname(this_file), p)]
     for j in reversed(J):
         cands.append(rjoin(j.replace(VROOT, root), p))
     for c in cands:
@@ -351,8 +373,11 @@ def oracle(case, root, obs1, obs2, by_real):
         return None if (obs1['rc'] == 0 or obs1['out_empty']) else ('stdout-on-failure', 'stdout not empty although the exit status is 1')
     if obs1['rc'] == 0:
         # walk the value along the programs
-        main_real = os.path.realpath(os.path.join(cwd_abs, case['main'].replace(VROOT, root)))
-        ent = by_real.get(main_real)
+        if case.get('virt'):
+            main_real, ent = None, case['virt']['prog']
+        else:
+            main_real = os.path.realpath(os.path.join(cwd_abs, case['main'].replace(VROOT, root)))
+            ent = by_real.get(main_real)
         if ent is None or ent['k'] != 'prog':
             return ('content', 'success although the main file is not a program')
         budget = [20000]
@@ -369,7 +394,10 @@ def oracle(case, root, obs1, obs2, by_real):
                     this_file = v.replace(VROOT, root) if isinstance(v, str) else None
             if this_file is None:
                 return None
-            if this_file_expected is not None:
+            if ent is (case.get('virt') or {}).get('prog'):
+                if this_file != REPR[case['virt']['mode']]:
+                    return 'std.thisFile of the virtual source is %r' % this_file
+            elif this_file_expected is not None:
                 # thisFile must be a spelling of the file itself
                 if os.path.realpath(os.path.join(cwd_abs, this_file)) != this_file_expected:
                     return 'std.thisFile %r of %s does not name that file' % (this_file, ent['tag'])
@@ -422,7 +450,11 @@ def oracle(case, root, obs1, obs2, by_real):
             return None
         site_file = os.path.join(cwd_abs, m.group(2))
         try:
-            line = open(site_file, 'rb').read().decode('utf-8', 'replace').split('\n')[int(m.group(3)) - 1]
+            if case.get('virt') and m.group(2) == REPR[case['virt']['mode']]:
+                text = content_of(case['virt']['prog']).replace(VROOT.encode(), root.encode())
+            else:
+                text = open(site_file, 'rb').read()
+            line = text.decode('utf-8', 'replace').split('\n')[int(m.group(3)) - 1]
         except Exception:
             return ('import-site', 'diagnostic names %s:%s which cannot be read' % (m.group(2), m.group(3)))
         mm = re.search(r'\b(import|importstr|importbin) ("(?:[^"\\]|\\.)*")', line)
@@ -586,7 +618,12 @@ def gen_case(rng, idx, allow_unpriv):
     upc = '../' * len([x for x in cwd.split('/') if x])
     J = []
     Jdirs = []
-    for _ in range(rng.choice([0, 1, 1, 2, 2, 3, 4])):
+    # delivery of the main program: a file, or a virtual source (-e text, stdin, --ext-code / --tla-code snippet)
+    virt = rng.choice(['e', 'e', 'stdin', 'ext', 'tla']) if rng.random() < 0.28 else None
+    nJ = rng.choice([0, 1, 1, 2, 2, 3, 4])
+    if virt and rng.random() < 0.4:
+        nJ = 0
+    for _ in range(nJ):
         d = rng.choice(alld * 3 + linkdirs + ['nonexistent'])
         Jdirs.append(linkto.get(d, d))
         r = rng.random()
@@ -679,8 +716,41 @@ def gen_case(rng, idx, allow_unpriv):
             return rng.choice([up + l, VROOT + '/' + l]) + '/' + nm
         return rel
 
+    def vpath_to(tp):
+        # spellings written in a virtual source: no importer directory, so absolute paths and -J-relative ones
+        td, nm = ('/'.join(tp.split('/')[:-1]), tp.split('/')[-1])
+        if rng.random() < 0.025:
+            return rng.choice(['', '.', '..', nm + '/', './', '/', VROOT, 'nope.libsonnet', VROOT + '/nope.libsonnet', '../' + nm])
+        js = [jd for jd in Jdirs if jd == '' or td == jd or td.startswith(jd + '/')]
+        ch = ['abs'] * 4 + ['abs2', 'cwdrel', 'bare', 'dotcwd']
+        if js:
+            ch += ['jrel'] * 3 + ['dotjrel', 'updownj']
+        c = rng.choice(ch)
+        if c == 'abs':
+            return VROOT + '/' + tp
+        if c == 'abs2':
+            return VROOT + rng.choice(['//', '/./', '/' + (alld[1:] or ['a'])[0] + '/' + '../' * depth((alld[1:] or ['a'])[0])]) + tp
+        if c == 'cwdrel':
+            return upc + tp
+        if c == 'dotcwd':
+            return './' + upc + tp
+        if c == 'bare':
+            return nm
+        jd = rng.choice(js)
+        jrel = tp[len(jd) + 1:] if jd else tp
+        if c == 'jrel':
+            return jrel
+        if c == 'dotjrel':
+            return './' + jrel
+        return ('../' + jd.split('/')[-1] + '/' + jrel) if jd else jrel
+
     for i, e in enumerate(order):
         from_dir = '/'.join(e['p'].split('/')[:-1])
+        if virt and i == 0:
+            def path_to_(fd, tp, own=None):
+                return vpath_to(tp)
+        else:
+            path_to_ = path_to
 
         def pick(kind):
             if kind == 'i':
@@ -688,12 +758,12 @@ def gen_case(rng, idx, allow_unpriv):
                 r = rng.random()
                 later = order[i + 1:]
                 if r < 0.96 and later:
-                    return path_to(from_dir, rng.choice(later)['p'], set(x['p'] for x in later) | set(x['p'] for x in ents if x['k'] != 'prog'))
+                    return path_to_(from_dir, rng.choice(later)['p'], set(x['p'] for x in later) | set(x['p'] for x in ents if x['k'] != 'prog'))
                 if 0.96 <= r < 0.975:
-                    return path_to(from_dir, rng.choice(order)['p'])
+                    return path_to_(from_dir, rng.choice(order)['p'])
                 if r < 0.99:
-                    return path_to(from_dir, rng.choice([e for e in others if e['k'] != 'prog'] or others)['p'])
-            return path_to(from_dir, rng.choice(others)['p'])
+                    return path_to_(from_dir, rng.choice([e for e in others if e['k'] != 'prog'] or others)['p'])
+            return path_to_(from_dir, rng.choice(others)['p'])
         ns = rng.choice([0, 0, 0, 1, 1, 2])
         for _ in range(ns):
             k = rng.choice(['i', 'i', 'i', 's', 'b'])
@@ -707,6 +777,9 @@ def gen_case(rng, idx, allow_unpriv):
             if k == 'i' and i + 1 >= len(order) and rng.random() < 0.9:
                 k = rng.choice(['s', 'b'])
             e['items'].append([k, pick(k)])
+    if virt:
+        ents.remove(mainent)
+        return {'ents': ents, 'cwd': cwd, 'J': J, 'main': '', 'priv': priv, 'virt': {'mode': virt, 'prog': mainent}}
     if len(order) >= 2 and rng.random() < 0.06:
         # a strict back-edge: an import cycle through values being computed (infinite recursion)
         j = rng.randrange(1, len(order))
@@ -725,9 +798,10 @@ def nontrivial_key(case, model_res, obs):
     evs = log[0][2:].split(';') if log and log[0][2:] else []
     loads = sum(1 for e in evs if e.startswith('l'))
     reads = sum(1 for e in evs if e.startswith('r'))
-    if loads + reads < 3:
+    if loads + reads < (2 if case.get('virt') else 3):
         return None
     return (f[0], f[1] if f[0] == 'ERR' else '', f[2] if f[0] == 'ERR' and len(f) > 2 else '', loads, reads, len(case['J']), case['cwd'] != '', case['priv'],
+            (case.get('virt') or {}).get('mode'),
             hash(model_res) & 0xffff)
 
 
@@ -828,6 +902,9 @@ def run_cases(run, cases, cli, model_exe, label, unpriv_ok):
         run.count('outcome_' + cls)
         run.count(label)
         run.count('run_as_' + ('root' if case['priv'] else 'nobody'))
+        run.count('main_delivered_as_' + (case['virt']['mode'] if case.get('virt') else 'file'))
+        if case.get('virt'):
+            run.count('virtual_main_with_%s_J' % ('no' if not case['J'] else 'some'))
         k = nontrivial_key(case, mr, obs)
         if k:
             run.nontrivial.add(k)
@@ -877,7 +954,8 @@ def check(run):
     run.rule = ('tree: a generated directory tree (1-5 directories incl. nested ones, 2-6 file names duplicated over the directories with '
                 'distinct content: programs, broken programs, data with valid/ill-formed UTF-8, directories named like files; file and '
                 'directory symlinks, dangling and looping ones; mode-000 files/directories), a working directory, 0-4 -J options in '
-                'various spellings, a spelling of the main file; every program traces its load, shows std.thisFile and 0-5 '
+                'various spellings, a spelling of the main file — or (28%) the main program delivered as a VIRTUAL source: -e text, stdin, '
+                '--ext-code / --tla-code snippet (no importer directory: its imports are absolute, -J-relative, ./ ../ or cwd-relative; 40% of those with no -J at all); every program traces its load, shows std.thisFile and 0-5 '
                 'import/importstr/importbin in strict or lazy position with spellings bare, ./, ../, //, through symlinks, absolute. '
                 'Each case = the real binary run twice + the extracted model. non-trivial = at least 3 loads/reads; distinct by '
                 '(outcome class, #loads, #reads, #-J, cwd, privilege, predicted output).')
